@@ -9,6 +9,10 @@ VK_NOTE = ("trusted: the virtual kernel model (vk/kernel.hpp, vk/ops.hpp; bound 
            "oracle; the programs are the unmodified binaries built from /repo's working tree by its own Makefile")
 DAEMON_NOTE = VK_NOTE + "; spawners are controller scripts on the daemon's pipes (their own code is covered by C09/C11/C18), time is a virtual clock"
 CHECKS = {
+ "C04": dict(engine="VK", category="model_checking", design_ref="4/C04",
+             technique="the C03 history exploration (real daemon binaries under the virtual kernel, deviation-bounded, crash points, TERM/restart) with exactly-once monitors evaluated at every delivery command and mark write, plus a configured x announced concurrency grid read back from the daemon's own status line",
+             text="Exactly-once and bounded concurrency are properties of all event orders; every history within the deviation bound is executed on the real binaries and each delivery command is checked against the on-disk T/D record and the outstanding-attempt ledger.",
+             note=DAEMON_NOTE),
  "C03": dict(engine="VK", category="model_checking", design_ref="4/C03",
              technique="stateless deviation-bounded exploration of complete histories of the real qmail-send/qmail-clean/qmail-queue binaries under a virtual kernel: every choice of answered delivery and verdict (K/Z/D/garbled), signals, machine crash (all keep/lose patterns) or kill before every mutating call, every single failing call; ledger monitors on every system call; every history run until the queue drains",
              text="The guarantee is about all histories of a long-running daemon including restarts; the explorer enumerates every history that deviates from the all-success default in at most 2-3 places (quick/thorough), including every crash point and every failing call, on the real binaries, and checks the delivered-or-bounced ledger at every step and at the end.",
@@ -30,9 +34,9 @@ CHECKS = {
              text="Every server script of the bounded tree is executed against the real client code and compared with a reference verdict function, so 'never K unless recipient and message were accepted' is decided for all scripts in the bound rather than for samples; the spawner's folding routine is covered over its whole small input space.",
              note=SEQ_NOTE + "; the spawner process itself (pipe/SIGCHLD ordering in spawn.c) is outside this harness"),
  "C15": dict(engine="SEQ", category="exploration", design_ref="4/C15",
-             technique="exhaustive evaluation of the real squareroot() for all 2^32 ages, nextretry() on a dense grid, and DFS over every insert/delmin sequence (depth<=8 quick, <=10 thorough) on the real prioq.c against a multiset reference",
-             text="The arithmetic facts are decided for the complete 32-bit domain; the heap is explored over all operation sequences up to the depth, which includes every heap shape of up to depth elements; the daemon-level schedule under a virtual clock is the VK part (added when that engine serves this property).",
-             note=SEQ_NOTE),
+             technique="exhaustive evaluation of the real squareroot() for all 2^32 ages, nextretry() on a dense grid, DFS over every insert/delmin sequence (depth<=8 quick, <=10 thorough) on the real prioq.c against a multiset reference; deviation-bounded exploration of daemon histories under a virtual clock (deferrals, ticks to each deadline, ALRM, TERM/restart, queue lifetime) with schedule monitors",
+             text="The arithmetic facts are decided for the complete 32-bit domain; the heap is explored over all operation sequences up to the depth, which includes every heap shape of up to depth elements; the daemon-level schedule is explored on the real qmail-send under the virtual kernel and clock.",
+             note=SEQ_NOTE + "; " + DAEMON_NOTE),
  "C05": dict(engine="SEQ", category="exploration", design_ref="4/C05",
              technique="bounded-exhaustive enumeration of every byte stream over {CR,LF,'.',a[,R|SP]} (length<=10 quick, <=12 thorough) and every read chunking through the real blast()/commands() of qmail-smtpd.c against an RFC 5321 reference receiver; every message through a reference sender and the real qmail-remote encoder into the real decoder",
              text="All strings of the bounded space are executed on the real decoder (function level and through the real command loop), so within the bound the for-all-inputs statement is decided, not sampled; the recogniser has 5 states and looks at one byte at a time, so length 10-12 over the 4 relevant byte classes exercises every state/byte transition in every context.",
